@@ -99,7 +99,7 @@ def main():
             if kind == "mutant":
                 path = os.path.join(d, f)
                 src = open(path).read()
-                if src.count(old) != 1:
+                if (src.count(old) != 1 and not mid.endswith("__all")) or src.count(old) < 1:
                     results.append((mid, pid, "STALE-MUTANT (pattern occurs %d times)" % src.count(old), 0))
                     print("%-45s %s STALE (pattern occurs %d times)" % (mid, pid, src.count(old)))
                     continue
